@@ -230,9 +230,57 @@ def stacked(rep):
     rep.coverage["stacked_decorator_cases"] = n
 
 
+def instance_attributes(rep):
+    """'the method that attribute lookup ON THAT INSTANCE resolves to': an instance attribute of the same name takes
+    precedence over the class's handler -- a decorated replacement (with its own flag) becomes the route, a plain value
+    removes it; other instances of the class are not affected"""
+    from ocpp.routing import after, on
+    from ocpp.v16 import ChargePoint as CP16
+    from ocpp.v201 import ChargePoint as CP201
+    for base_cls in (CP16, CP201):
+        def replacement_fn(**kwargs):
+            return None
+        replacement_fn.__name__ = "on_hb"
+
+        class WithClassHandlers(base_cls):
+            def __init__(self, id, connection, replace=False, drop_hook=False):
+                if replace:
+                    self.on_hb = on("Heartbeat", skip_schema_validation=True)(replacement_fn)
+                if drop_hook:
+                    self.after_hb = None
+                super().__init__(id, connection)
+
+            @on("Heartbeat")
+            def on_hb(self, **kwargs):
+                return None
+
+            @after("Heartbeat")
+            def after_hb(self, **kwargs):
+                return None
+        plain, replaced, dropped = WithClassHandlers("p", None), WithClassHandlers("r", None, replace=True), WithClassHandlers("d", None, drop_hook=True)
+        plain2 = WithClassHandlers("p2", None)
+        rep.count("instance-attributes:" + base_cls.__module__)
+
+        def view(o):
+            r = o.route_map.get("Heartbeat", {})
+            h = r.get("_on_action")
+            return {"on_is_class_method": getattr(h, "__self__", None) is o, "skip": bool(r.get("_skip_schema_validation")),
+                    "has_hook": "_after_action" in r}
+        got = {"plain": view(plain), "replaced": view(replaced), "dropped": view(dropped), "plain-after": view(plain2)}
+        want = {"plain": {"on_is_class_method": True, "skip": False, "has_hook": True},
+                "replaced": {"on_is_class_method": False, "skip": True, "has_hook": True},
+                "dropped": {"on_is_class_method": True, "skip": False, "has_hook": False},
+                "plain-after": {"on_is_class_method": True, "skip": False, "has_hook": True}}
+        if got != want:
+            rep.violation("C15:instance-attribute:%s" % base_cls.__module__,
+                          "instances whose own attributes shadow the class's handler / hook: route maps %r, attribute lookup says %r" % (got, want),
+                          {"kind": "instance-attributes", "base": base_cls.__module__, "route_maps": got, "expected": want})
+
+
 def body_factory(tier, seed):
     def body(rep, support_ok):
         stacked(rep)
+        instance_attributes(rep)
         rng = random.Random(seed * 53 + 9)
         n = 150 if tier == "quick" else 2500
         terms, meta = [], []
@@ -312,6 +360,21 @@ def run(rep, tier, seed):
 
 
 def replay(d):
+    if d.get("kind") == "instance-attributes":
+        class R3:
+            hit = []
+            coverage = {}
+
+            def count(self, *_a):
+                pass
+
+            def violation(self, key, what, *_a, **_k):
+                self.hit.append(key)
+                print(what)
+        r3 = R3()
+        instance_attributes(r3)
+        print("FAILS" if r3.hit else "HOLDS")
+        return 1 if r3.hit else 0
     if d.get("kind") == "stacked":
         class R:
             hit = []
